@@ -12,6 +12,10 @@ Ties (model evaluated by vm_compute inside coqc, implementation = the real code 
                                   exported order, which must be the order the run exported and wrote.
 Oracle (independent, brute force, reads only the written file): for every pair i < j of traceEvents
   (ts_i, -dur_i) <= (ts_j, -dur_j) with a missing dur counted as 0, and every ts a real number.
+Size x ties (oracle only, no Coq literal - the model's insertion sort is quadratic): operation sequences with
+  255..8400 queued events on the real EventSortingContext (contract oracle), and end-to-end scenarios of 3000..6000
+  slices on 1-3 ranks in which almost every ts value carries several nested slices of different duration
+  (gen_big_scenario, corpus kind e2e_grid); thorough tier: the first large scenario also goes through the model.
 """
 import contextlib
 import copy
@@ -51,7 +55,10 @@ MANIFEST = {
             "C08_hidden_dur_breaks_export_order). The per-lane mode is proved per queue (C08_sort_drain) and as conservation "
             "(C08_sort_stream); that each queue holds exactly its lane's events in arrival order is tied, not proved. "
             "-I (duplicate_and_hold after every stage), -R, -S, -s, -O async|shift|warn and --flex_ts_fix are "
-            "outside the end-to-end tie. Print Assumptions: closed under the global context.",
+            "outside the end-to-end tie. Large inputs (operation sequences of 255..8400 queued events, end-to-end "
+            "scenarios of 3000..6000 slices with several nested slices of different duration per ts value) are judged by "
+            "the oracles only in the quick tier; the thorough tier also pushes one of them through the model. "
+            "Print Assumptions: closed under the global context.",
     "technique": "Coq proof (insertion-sort invariants, induction over the stream, Pipeline.stream_compose, computation on "
                  "the generated registration program lifted to all guard valuations) + vm_compute correspondence against "
                  "the real EventSortingContext / register_processing_functions / Acelyzer + brute-force order oracle",
@@ -85,7 +92,8 @@ ASSUMPTIONS = [
     "launch flows, tb refinement) sit in the prefix, whose behaviour the theorem does not depend on beyond being a "
     "function of the input stream - for them the statement is 'whatever reaches the last stage', validated end to end",
     "option domain of the end-to-end tie: default / power_ts4 / prep_queue / coll_bw counters, --keep_prep, --flow, --tb, "
-    "--disable_tb, -O drop|tid, -M, -t, --drop_globals, --comm_summarize_seq on 1..4 ranks",
+    "--disable_tb, -O drop|tid, -M, -t, --drop_globals, --comm_summarize_seq on 1..4 ranks; small scenarios (< 200 "
+    "exported events) and, for the size x ties region, scenarios of 3000..6000 slices on 1..3 ranks",
 ]
 
 SYNTH_PH = ("C", "M", "s", "f")
@@ -341,7 +349,9 @@ def shrink_kernel(f):
     def bad(c):
         return [x for x in oracle_kernel(c, drive_ops(c)) if x["signature"]["kind"] == kind]
     ops = list(case["ops"])
-    changed = True
+    if len(ops) > 200:      # large queue: chunks first (every evaluation sorts thousands of events)
+        ops = _ddmin(ops, lambda o2: bool(bad(dict(case, ops=o2))), budget=30.0, floor=16)
+    changed = len(ops) <= 200
     while changed:
         changed = False
         for k in range(len(ops)):
@@ -509,6 +519,119 @@ def gen_scenario(r):
     return {"kind": "e2e", "files": files, "R": R, "coll": coll}
 
 
+BIG_OPTS = [[], ["-C", "power_ts4", "prep_queue", "--keep_prep"], ["--flow"], ["--tb"], ["-O", "drop", "-t"], ["-C"],
+            ["--drop_globals", "-C", "prep_queue"], ["-M", "--flow", "--keep_prep"]]
+
+
+def gen_big_scenario(r, n_slices=None):
+    """the size x ties region: 1-3 one-rank FLEX files with 3000..6000 slices overall.  All ranks share one grid of
+    start times; at a start time a rank opens 1..6 nested host slices (one tid per nesting level, so no two slices
+    of a tid overlap) with durations drawn WITH repetition from a small set - equal-ts groups of different (and
+    sometimes equal) durations inside and across ranks are the rule.  A sparse stream of device Exec kernels with
+    cycle counters sits on the same grid, so the counter / prep-queue / tb options have something to synthesize.
+    Events of one start time are written in random order (a FLEX file is ordered by ts only)."""
+    R = r.choice([1, 2, 2, 3])
+    N = n_slices or r.randint(3000, 6000)
+    T0 = 1000.0
+    step = r.choice([1.0, 2.0, 0.5])
+    width = r.choice([16, 32, 64])
+    slot = step * width
+    files, uid = [], 0
+    for pid in range(R):
+        evs, s = [], r.choice([0, 0, 1, 2])
+        c0 = 1000000 + r.randrange(0, 1000) * 16
+
+        def cyc(t_, d_, c0=c0):
+            a_ = c0 + int(round((t_ - T0) * 1000))
+            b_ = c0 + int(round((t_ + d_ - T0) * 1000))
+            return {"TS1": str(a_), "TS2": str(a_ + 16), "TS3": str(a_ + 32), "TS4": str(b_ - 64), "TS5": str(b_)}
+        quota = N // R + (1 if pid < N % R else 0)
+        n, k = 0, 0
+        p_dev = r.choice([0.0, 0.05, 0.15])
+        while n < quota:
+            t = T0 + slot * s
+            depth = min(r.choice([1, 2, 3, 4, 4, 5, 6]), quota - n)
+            grp = []
+            for lvl in range(depth):
+                uid += 1
+                d = step * r.choice([1, 2, 2, 3, 4, 6, 8, 12, width - 1])
+                grp.append({"name": f"host{lvl}_{k}", "ph": "X", "pid": pid, "tid": 3 + lvl, "ts": t, "dur": d,
+                            "args": {"uid": uid}})
+            n += depth
+            if r.random() < p_dev and n < quota:
+                uid += 1
+                d = step * r.choice([1, 2, 3, 4, 8])
+                grp.append({"name": f"op{k} Cmpt Exec", "ph": "X", "pid": pid, "tid": 10, "ts": t, "dur": d,
+                            "args": dict(cyc(t, d), Power=str(1000 + 37 * (uid % 50)), uid=uid)})
+                n += 1
+            r.shuffle(grp)
+            evs += grp
+            k += 1
+            s += r.choice([1, 1, 1, 1, 2, 3])
+        files.append(evs)
+    return {"kind": "e2e", "files": files, "R": R, "coll": False, "big": True}
+
+
+def grid_scenario(ranks, slots, lanes, period=1000.0, opts=None, **_):
+    """corpus kind e2e_grid (written out it would be megabytes): every `period` us each rank opens `lanes` nested
+    host slices at the same ts, all durations of one ts value distinct over the ranks; file order = shortest first"""
+    files = []
+    for pid in range(ranks):
+        evs = []
+        for s in range(slots):
+            for lane in reversed(range(lanes)):
+                evs.append({"name": f"host_fn_{lane}", "ph": "X", "pid": pid, "tid": 10 + lane,
+                            "ts": 1000.0 + period * s, "dur": period * 0.8 - (period / 10) * lane - (period / 40) * pid,
+                            "args": {"uid": len(evs)}})
+        files.append(evs)
+    return {"kind": "e2e", "files": files, "R": ranks, "coll": False, "big": slots * lanes * ranks >= 1000}
+
+
+def gen_big_kernel_case(r):
+    """stage-level drive of the real sorter with hundreds to thousands of queued events (sizes around the powers of
+    two 256..8192), few distinct ts values per event count, durations with repetition, some events without dur"""
+    u = r.random()
+    if u < 0.6:
+        cfg = [None, "ts,dur:r", True]
+    elif u < 0.8:
+        cfg = [None, "ts,dur:r", False]
+    else:
+        cfg = [r.choice([None, ["X"], ["X", "C"]]), r.choice(["ts,dur:r", "ts", "dur:r,ts", "ts,dur", "ts,dur:r,x"]),
+               r.random() < 0.5]
+    n = r.choice([256, 512, 1024, 2048, 4096, 8192]) + r.choice([-1, 0, 0, 1, r.randint(2, 200)])
+    group = r.choice([2, 4, 8, 16, 64])
+    nts = max(1, n // group)
+    ops = []
+    for uid in range(1, n + 1):
+        ph = r.choice(["X", "X", "X", "X", "X", "C", "M", "f"])
+        e = {"ph": ph, "pid": r.choice([0, 0, 1, 2]), "tid": r.choice([0, 1, 2, 7]), "name": f"e{uid}",
+             "args": {"uid": uid}, "ts": float(r.randrange(nts)) if r.random() < 0.7 else r.randrange(nts)}
+        if ph == "X" or r.random() < 0.1:
+            e["dur"] = r.choice([1, 2, 2, 3, 4, 6, 8, 0.5, 12.0])
+        if r.random() < 0.2:
+            e["x"] = r.choice([0, 1, 2])
+        ops.append(["sort", e])
+    ops.append(["drain"])
+    return {"kind": "kernel", "cfg": cfg, "ops": ops, "big": True}
+
+
+def _ddmin(items, still_bad, budget, floor=1):
+    """remove chunks (halves, quarters, ...) while the failure stays; bounded by wall time"""
+    t0 = time.time()
+    chunk = max(floor, len(items) // 2)
+    while chunk >= floor and time.time() - t0 < budget and len(items) > 1:
+        k, removed = 0, False
+        while k < len(items) and time.time() - t0 < budget:
+            cand = items[:k] + items[k + chunk:]
+            if cand and len(cand) < len(items) and still_bad(cand):
+                items, removed = cand, True
+            else:
+                k += chunk
+        if not removed or chunk > max(floor, len(items) // 2):
+            chunk //= 2
+    return items
+
+
 def _snapshot(ev):
     return {k: ev[k] for k in ("ph", "pid", "tid", "ts", "dur", "name") if k in ev}
 
@@ -669,7 +792,17 @@ def shrink_e2e(f, ctx, paths, budget=60.0):
         sc = {"files": fl}
         fs = e2e_failures(sc, opts, run_e2e(sc, opts, ctx.work, paths))
         return [x for x in fs if x["signature"]["kind"] == kind]
-    changed = True
+    if sum(len(x) for x in files) > 400:     # large scenario: whole ranks, then chunks of events
+        units = [(fi, ev) for fi, fl in enumerate(files) for ev in fl]
+
+        def regroup(us):
+            fl = [[] for _ in files]
+            for fi, ev in us:
+                fl[fi].append(ev)
+            return [x for x in fl if x]
+        units = _ddmin(units, lambda us: bool(bad(regroup(us))), budget=budget, floor=64)
+        files = regroup(units)
+    changed = sum(len(x) for x in files) <= 400
     while changed and time.time() - t0 < budget:
         changed = False
         for fi in range(len(files)):
@@ -726,8 +859,8 @@ def run(ctx):
     r = ctx.rng
     corpus = load_corpus()
     mism, fails, ties, notes = [], [], [], []
-    dist = {"kernel_cfg": {}, "kernel_ops": {}, "e2e_ranks": {}, "e2e_opts": {}, "e2e_synth_ph": {}, "e2e_errors": {},
-            "e2e_events": {}, "e2e_ties": 0}
+    dist = {"kernel_cfg": {}, "kernel_ops": {}, "kernel_big_queue": {}, "e2e_ranks": {}, "e2e_opts": {},
+            "e2e_synth_ph": {}, "e2e_errors": {}, "e2e_events": {}, "e2e_ties": 0, "e2e_big": []}
     from aiu_trace_analyzer.constants import TS_CYCLE_KEY
 
     # ---------------- tie 1: _parse_sortkey
@@ -784,6 +917,16 @@ def run(ctx):
               "case": {k: kcases[j][k] for k in ("cfg", "ops")}, "impl": terms[j][1][:400]} for j in bad[:3]]
     ties.append({"name": "Sort.ops_val = results of sort_events/insert/drain on the real EventSortingContext",
                  "cases": len(kcases), "mismatching": len(bad), "coq_seconds": round(secs, 1)})
+    # large queues on the real sorter: oracle only (the model's insertion sort over thousands of literals is slow)
+    n_bigk = ctx.pick(16, 200)
+    t_bk = time.time()
+    for _ in range(n_bigk):
+        c = gen_big_kernel_case(r)
+        kfails += oracle_kernel(c, drive_ops(c))[:1]
+        b = len(c["ops"]) - 1
+        b = 1 << (b.bit_length() - 1)
+        dist["kernel_big_queue"][b] = dist["kernel_big_queue"].get(b, 0) + 1
+    notes.append(f"{n_bigk} large operation sequences (255..8400 queued events, oracle only) in {time.time() - t_bk:.1f}s")
     seen_k = set()
     for f in kfails:
         if f["signature"]["kind"] not in seen_k and len(seen_k) < 2:
@@ -829,15 +972,21 @@ def run(ctx):
     # ---------------- tie 4: end to end
     paths = e2e_paths(ctx)
     e2e = [({"files": c["files"]}, c["opts"]) for c in corpus if c.get("kind") == "e2e"]
+    e2e += [(grid_scenario(**c), c["opts"]) for c in corpus if c.get("kind") == "e2e_grid"]
     n_corpus_e = len(e2e)
     n_sc = ctx.pick(150, 2000)
     for k in range(n_sc):
         sc = gen_scenario(r)
         for opts in ([E2E_OPTS[k % len(E2E_OPTS)], r.choice(E2E_OPTS)] if ctx.quick() else r.sample(E2E_OPTS, 3)):
             e2e.append((sc, opts))
+    # size x ties: a few large scenarios (oracle on the written file; thorough: the first one also goes through the model)
+    n_big = ctx.pick(4, 40)
+    for k in range(n_big):
+        e2e.append((gen_big_scenario(r), BIG_OPTS[k % len(BIG_OPTS)] if k < 2 or r.random() < 0.5 else r.choice(E2E_OPTS)))
     nm4 = Names()
     terms, tcases, nontriv_e, efails = [], [], set(), []
     t_e2e = time.time()
+    big_tied = 0
     for sc, opts in e2e:
         res = run_e2e(sc, opts, ctx.work, paths)
         fl = e2e_failures(sc, opts, res)
@@ -860,6 +1009,18 @@ def run(ctx):
             continue
         if not all(_num(s.get("ts")) or "ts" not in s for s in res["inflow"]):
             continue            # reported by the oracle (non numeric ts)
+        if sc.get("big"):
+            te_ = res["file_events"]
+            groups = {}
+            for e_ in te_:
+                groups.setdefault(e_.get("ts"), set()).add(e_.get("dur"))
+            dist["e2e_big"].append({"events": len(te_), "ranks": len(sc["files"]), "opts": list(opts),
+                                    "ts_groups_with_different_dur": sum(1 for g in groups.values() if len(g) > 1)})
+            if len(te_) >= 1000 and sum(1 for g in groups.values() if len(g) > 1) >= 100:
+                nontriv_e.add(scen_hash(sc, opts))
+            big_tied += 1
+            if big_tied > ctx.pick(0, 1):     # the model's insertion sort needs ~2 min for 4000 literals
+                continue
         terms.append((coq_e2e_case(nm4, TS_CYCLE_KEY, res["inflow"]), enc.V(res["exported_uids"])))
         tcases.append((sc, opts, res["last"]))
         phs = {}
@@ -871,7 +1032,7 @@ def run(ctx):
         tsl = [e.get("ts") for e in te]
         nt = len(tsl) - len(set(tsl))
         dist["e2e_ties"] += nt
-        b = min(len(te) // 20 * 20, 200)
+        b = min(len(te) // 20 * 20, 200) if len(te) < 1000 else 1000
         dist["e2e_events"][b] = dist["e2e_events"].get(b, 0) + 1
         if len({e.get("pid") for e in te}) >= 2 and any(p in SYNTH_PH for p in phs) and nt > 0:
             nontriv_e.add(scen_hash(sc, opts))
@@ -895,7 +1056,7 @@ def run(ctx):
     shutil.rmtree(os.path.join(ctx.work, "out"), ignore_errors=True)
 
     return {
-        "evaluations": len(keys) + len(kcases) + len(SORTER_ARGV) + len(e2e),
+        "evaluations": len(keys) + len(kcases) + n_bigk + len(SORTER_ARGV) + len(e2e),
         "distinct_nontrivial": len(nontriv_e) + nontriv_k,
         "rule": "non-trivial = (a) DISTINCT end-to-end (scenario, option set) runs whose export holds >= 2 pids, >= 1 "
                 "synthesized event (counter, flow arrow or metadata) and >= 1 pair of equal timestamps "
@@ -903,7 +1064,10 @@ def run(ctx):
                 f"({nontriv_k}). Streams: {len(keys)} sortkey strings; {len(kcases)} operation sequences "
                 f"({n_corpus_k} corpus) over all filter/key/global variants, 45% in the final sort's configuration; "
                 f"{len(SORTER_ARGV)} argument vectors for the sorter configurations; {len(e2e)} end-to-end runs "
-                f"({n_corpus_e} corpus) = {n_sc} generated 1-4 rank scenarios x option sets {E2E_OPTS}",
+                f"({n_corpus_e} corpus) = {n_sc} generated 1-4 rank scenarios x option sets {E2E_OPTS} + {n_big} large "
+                f"scenarios (3000..6000 slices, 1-3 ranks, nested equal-ts groups; counted as non-trivial when the export "
+                f"holds >= 1000 events and >= 100 ts values with different durations); {n_bigk} large operation "
+                f"sequences (255..8400 queued events), oracle only",
         "samples": [{"kernel": {k: kcases[-1][k] for k in ("cfg", "ops")}},
                     {"e2e_opts": e2e[-1][1], "e2e_files": e2e[-1][0]["files"]}],
         "mismatches": mism, "oracle_failures": fails[:4], "ties": ties, "distribution": dist, "notes": notes,
@@ -922,7 +1086,18 @@ def search(ctx, res, broken):
         n = 0
         while time.time() - t0 < limit:
             n += 1
-            if n % 3:
+            if n % 4 == 1:          # the size x ties region first
+                sc = gen_big_scenario(r)
+                opts = r.choice(BIG_OPTS)
+                fl = e2e_failures(sc, opts, run_e2e(sc, opts, ctx.work, paths))
+                if fl:
+                    return [shrink_e2e(fl[0], ctx, paths, budget=45)]
+                for _ in range(6):
+                    c = gen_big_kernel_case(r)
+                    fl = oracle_kernel(c, drive_ops(c))
+                    if fl:
+                        return [shrink_kernel(fl[0])]
+            elif n % 3:
                 sc = gen_scenario(r)
                 for opts in r.sample(E2E_OPTS, 3):
                     fl = e2e_failures(sc, opts, run_e2e(sc, opts, ctx.work, paths))
